@@ -98,8 +98,11 @@ def p2(ctx):
                 return strip_role(x[3][1])
         return None
 
+    sw_ids = set(C.slot_writers(crate))
     for b in crate.fns():
-        for sub in [b]:
+        # the slot-set writer is looked at with its single-use helpers spliced in (a struct / helper that carries the id
+        # of the class being shrunk must not hide that the re-queue is for the same class)
+        for sub in [mir.inline_view(crate, b, keep=("touched_class", "record_redundancy_witness", "union_internal")) if b.id in sw_ids else b]:
             # (a) Group::add / add_set on a class group
             for c in sub.calls:
                 if sub.blocks[c.bb]["cleanup"] or not c.callee:
@@ -280,7 +283,7 @@ def p4(ctx):
     # the requeue function must combine with the stored type through merge
     for rid in C.requeue_functions(crate):
         rb = crate.bodies[rid]
-        uses_merge = any(c.callee and c.callee.target == m.id for c in rb.all_calls())
+        uses_merge = any(c.callee and c.callee.target == m.id for c in rb.all_calls()) or m.id in set(crate.reachable_from([rid], resolve_traits=False))
         ctx.check(uses_merge, "requeue-uses-merge:" + C.fkey(rb), "the requeue function combines the stored and the new pending type with merge",
                   "the requeue function overwrites / ignores the stored pending type instead of joining with PendingType::merge", where_of(rb))
 
